@@ -1,7 +1,1121 @@
 /-
-  Property C18 — theorems about QEModel.C18 (stub; to be filled in).
+  Property C18 — random generators produce valid objects: theorems about QEModel.C18
+  (the kernels that turn the drawn uniforms / integers into the generated object).
+  Every theorem is for ALL sizes and ALL streams of draws satisfying the stated guard.
 -/
 import QEModel.C18
+import QEProofs.Lemmas.C18Swr
+import QEProofs.Lemmas.C18Probvec
+import QEProofs.Lemmas.C18Count
+import QEProofs.Lemmas.C18Place
+import QEProofs.Lemmas.C18Tourn
+import QEProofs.Lemmas.C18Games
+import QEProofs.Lemmas.C18TGame
+import QEProofs.Lemmas.C18NextK
+import QEProofs.Lemmas.C18TGame0
+import QEProofs.Lemmas.C18Sgc
+import QEProofs.Lemmas.C18SgcDef
+import Mathlib.Tactic.NormNum
 namespace QE.C18
+
+/-! ## sample_without_replacement -/
+
+/-- **k distinct integers in range.** For every `n`, every `k ≤ n` and every sequence of
+    indices with `idx_j < n - j` (what `floor(r_j·(n-j))` gives for `r_j ∈ [0,1)`), the
+    pool-swap loop returns `k` pairwise distinct integers of `[0, n)`. -/
+theorem swr_distinct_in_range (n : Nat) (idxs : List Nat) (hk : idxs.length ≤ n)
+    (hidx : ∀ t (h : t < idxs.length), idxs[t] < n - t) :
+    (swr n idxs).length = idxs.length ∧ (swr n idxs).Nodup ∧ ∀ x ∈ swr n idxs, x < n := by
+  have hinv : PoolInv n (n - 0) (List.range n) := by simpa using poolInv_range n
+  have h := swrLoop_spec n idxs 0 (List.range n) hinv (by omega)
+    (by intro t ht; simpa using hidx t ht)
+  refine ⟨swrLoop_length n idxs 0 _, h.1, ?_⟩
+  intro x hx
+  obtain ⟨t, ht, hxt⟩ := h.2 x hx
+  rw [← hxt]
+  exact hinv.2.2.1 t ht
+
+example : swr 5 [4, 3, 0, 1, 0] = [4, 3, 0, 1, 2] := by decide
+example : ∀ t (h : t < [4, 3, 0, 1, 0].length), [4, 3, 0, 1, 0][t] < 5 - t := by decide
+
+/-- With `k = n` the sample is a permutation of `0, …, n-1`. -/
+theorem swr_full_perm (n : Nat) (idxs : List Nat) (hk : idxs.length = n)
+    (hidx : ∀ t (h : t < idxs.length), idxs[t] < n - t) :
+    (swr n idxs).Perm (List.range n) := by
+  obtain ⟨hl, hnd, hlt⟩ := swr_distinct_in_range n idxs (by omega) hidx
+  have hsub : (swr n idxs).Subperm (List.range n) :=
+    List.subperm_of_subset hnd (fun x hx => List.mem_range.2 (hlt x hx))
+  exact hsub.perm_of_length_le (by simp [hl, hk])
+
+/-- The guard of `swr_distinct_in_range` holds for the indices computed in exact arithmetic
+    from uniforms in `[0, 1)`: `floor(r·(n-j)) < n-j`.  (For doubles the same inequality is an
+    IEEE fact about the rounded product; it is checked on the code at `r = 1-2⁻⁵³`.) -/
+theorem idxsRat_guard (n : Nat) : ∀ (rs : List Rat) (j : Nat), j + rs.length ≤ n →
+    (∀ r ∈ rs, 0 ≤ r ∧ r < 1) →
+    ∀ t (h : t < (idxsRat n j rs).length), (idxsRat n j rs)[t] < n - (j + t)
+  | [], _, _, _ => by intro t h; simp [idxsRat] at h
+  | r :: rest, j, hlen, hr => by
+    intro t h
+    have hpos : 0 < n - j := by simp at hlen; omega
+    cases t with
+    | zero =>
+      simp only [idxsRat, List.getElem_cons_zero, Nat.add_zero]
+      obtain ⟨h0, h1⟩ := hr r (by simp)
+      have hm : (0 : Rat) < ((n - j : Nat) : Rat) := by exact_mod_cast hpos
+      have hlt : r * ((n - j : Nat) : Rat) < ((n - j : Nat) : Rat) := by
+        have := mul_lt_mul_of_pos_right h1 hm
+        simpa using this
+      have hfl : (r * ((n - j : Nat) : Rat)).floor < ((n - j : Nat) : Int) := by
+        rw [Rat.floor_lt_iff]  -- ⌊x⌋ < z ↔ x < z
+        exact_mod_cast hlt
+      have hnn : 0 ≤ (r * ((n - j : Nat) : Rat)).floor := by
+        rw [Rat.le_floor_iff]
+        exact_mod_cast mul_nonneg h0 (le_of_lt hm)
+      omega
+    | succ t =>
+      simp only [idxsRat, List.getElem_cons_succ]
+      have := idxsRat_guard n rest (j + 1) (by simp at hlen; omega)
+        (fun r' hr' => hr r' (List.mem_cons_of_mem _ hr')) t (by simpa [idxsRat] using h)
+      rw [show n - (j + (t + 1)) = n - (j + 1 + t) from by omega]; exact this
+
+/-- **sample_without_replacement in exact arithmetic.** For every `n`, every `k ≤ n` and every
+    stream of `k` rational uniforms in `[0, 1)`, the sample consists of `k` pairwise distinct
+    integers of `[0, n)`. -/
+theorem swr_rat_distinct_in_range (n : Nat) (rs : List Rat) (hk : rs.length ≤ n)
+    (hr : ∀ r ∈ rs, 0 ≤ r ∧ r < 1) :
+    (swr n (idxsRat n 0 rs)).length = rs.length ∧ (swr n (idxsRat n 0 rs)).Nodup ∧
+      ∀ x ∈ swr n (idxsRat n 0 rs), x < n := by
+  have hlen : ∀ (rs : List Rat) (j : Nat), (idxsRat n j rs).length = rs.length := by
+    intro rs; induction rs with
+    | nil => intro j; rfl
+    | cons r rest ih => intro j; simp [idxsRat, ih]
+  have hg := idxsRat_guard n rs 0 (by omega) hr
+  have := swr_distinct_in_range n (idxsRat n 0 rs) (by rw [hlen]; exact hk)
+    (by intro t ht; simpa using hg t ht)
+  rw [hlen] at this
+  exact this
+
+example : swr 5 (idxsRat 5 0 [(9 : Rat) / 10, 1 / 2, 0]) = [4, 2, 0] := by decide +kernel
+
+/-! ## probvec -/
+
+section probvec
+set_option linter.unusedSectionVars false
+variable {K : Type} [Field K] [LinearOrder K] [IsStrictOrderedRing K]
+
+/-- **Points of the unit simplex.** For every non-empty list of uniforms in `[0, 1]` (any
+    order — the kernel sorts), the row written by `_probvec` has one more entry than there are
+    uniforms, all entries are `≥ 0`, and they sum to `1`. -/
+theorem probvecRow_simplex (r : List K) (hne : r ≠ []) (h01 : ∀ x ∈ r, 0 ≤ x ∧ x ≤ 1) :
+    (probvecRow r).length = r.length + 1 ∧ (∀ y ∈ probvecRow r, 0 ≤ y) ∧ (probvecRow r).sum = 1 := by
+  unfold probvecRow
+  have hs := sortAsc_sorted r
+  have hl := sortAsc_length r
+  have hm := sortAsc_mem r
+  cases hsr : sortAsc r with
+  | nil => rw [hsr] at hl; cases r with
+    | nil => exact absurd rfl hne
+    | cons a l => simp at hl
+  | cons x xs =>
+    rw [hsr] at hs hl hm
+    have h01' : ∀ z ∈ x :: xs, 0 ≤ z ∧ z ≤ 1 := fun z hz => h01 z ((hm z).1 hz)
+    refine ⟨?_, ?_, ?_⟩
+    · simp only [probvecSorted, List.length_cons, spacings_length]
+      rw [← hl]; simp
+    · intro y hy
+      simp only [probvecSorted, List.mem_cons] at hy
+      rcases hy with rfl | hy
+      · exact (h01' y (by simp)).1
+      · exact spacings_nonneg xs x hs (fun z hz => (h01' z hz).2) y hy
+    · simp only [probvecSorted, List.sum_cons, spacings_sum]; ring
+
+example : probvecSorted [(1 : Rat) / 4, 1 / 2, 3 / 4] = [1 / 4, 1 / 4, 1 / 4, 1 / 4] := by
+  norm_num [probvecSorted, spacings]
+example : ([(3 : Rat) / 4, 1 / 4, 1 / 2] ≠ []) ∧ ∀ x ∈ [(3 : Rat) / 4, 1 / 4, 1 / 2], 0 ≤ x ∧ x ≤ 1 := by
+  refine ⟨by simp, ?_⟩; norm_num
+
+/-- **Exactly k positive entries ⇔ distinct uniforms in (0,1).** All `k` entries of the row
+    are strictly positive iff the `k-1` uniforms are pairwise distinct and lie strictly
+    between 0 and 1.  (The hypothesis "distinct and non-zero" is therefore forced: see the
+    witnesses below — it fails only on a null set of streams, finding F10.) -/
+theorem probvecRow_pos_iff (r : List K) (hne : r ≠ []) :
+    (∀ y ∈ probvecRow r, 0 < y) ↔ (r.Nodup ∧ ∀ x ∈ r, 0 < x ∧ x < 1) := by
+  unfold probvecRow
+  have hs := sortAsc_sorted r
+  have hp := sortAsc_perm r
+  have hm := sortAsc_mem r
+  cases hsr : sortAsc r with
+  | nil =>
+    have hl := sortAsc_length r
+    rw [hsr] at hl; cases r with
+    | nil => exact absurd rfl hne
+    | cons a l => simp at hl
+  | cons x xs =>
+    rw [hsr] at hs hp hm
+    have hx : ∀ z ∈ x :: xs, x ≤ z := by
+      intro z hz
+      rcases List.mem_cons.1 hz with rfl | hz'
+      · exact le_refl _
+      · exact (List.pairwise_cons.1 hs).1 z hz'
+    have key := spacings_pos_iff xs x hs
+    constructor
+    · intro h
+      have h0 : 0 < x := h x (by simp [probvecSorted])
+      obtain ⟨hlt, h1⟩ := key.1 (fun y hy => h y (by simp [probvecSorted, hy]))
+      refine ⟨hp.nodup_iff.1 ((sorted_lt_iff_nodup _ hs).1 hlt), ?_⟩
+      intro z hz
+      have hz' := (hm z).2 hz
+      exact ⟨lt_of_lt_of_le h0 (hx z hz'), h1 z hz'⟩
+    · rintro ⟨hnd, h01⟩ y hy
+      simp only [probvecSorted, List.mem_cons] at hy
+      rcases hy with rfl | hy
+      · exact (h01 y ((hm y).1 (by simp))).1
+      · refine key.2 ⟨(sorted_lt_iff_nodup _ hs).2 (hp.nodup_iff.2 hnd), ?_⟩ y hy
+        exact fun z hz => (h01 z ((hm z).1 hz)).2
+
+/-- whatever the uniforms in `[0,1]` (ties, zeros and ones included) at least one entry of the row is
+    positive — between 1 and `k` positive entries in general, exactly `k` under `probvecRow_pos_iff` -/
+theorem probvecRow_some_positive (r : List K) (hne : r ≠ []) (h01 : ∀ x ∈ r, 0 ≤ x ∧ x ≤ 1) :
+    ∃ y ∈ probvecRow r, 0 < y := by
+  obtain ⟨_, hnn, hsum⟩ := probvecRow_simplex r hne h01
+  by_contra hc
+  have hz : ∀ y ∈ probvecRow r, y = 0 := by
+    intro y hy
+    have h1 := hnn y hy
+    have h2 : ¬ 0 < y := fun h => hc ⟨y, hy, h⟩
+    exact le_antisymm (not_lt.1 h2) h1
+  have : (probvecRow r).sum = 0 := List.sum_eq_zero hz
+  rw [hsum] at this
+  exact one_ne_zero this
+
+/-- **How many positive entries in general.** For every non-empty list of uniforms in `[0, 1]` the
+    number of strictly positive entries of the row is the number of distinct values among the
+    uniforms together with 0 and 1, minus one — `k` exactly when the `k-1` uniforms are distinct and
+    strictly inside (0,1), fewer for every tie and for every uniform equal to 0 or 1 (finding F10). -/
+theorem probvecRow_count_positive (r : List K) (hne : r ≠ []) (h01 : ∀ x ∈ r, 0 ≤ x ∧ x ≤ 1) :
+    (probvecRow r).countP (fun y => decide (0 < y))
+      = (insert 0 (insert 1 r.toFinset)).card - 1 := by
+  unfold probvecRow
+  have hs := sortAsc_sorted r
+  have hp := sortAsc_perm r
+  have hm := sortAsc_mem r
+  have htf : (sortAsc r).toFinset = r.toFinset := List.toFinset_eq_of_perm _ _ hp
+  cases hsr : sortAsc r with
+  | nil =>
+    have hl := sortAsc_length r
+    rw [hsr] at hl; cases r with
+    | nil => exact absurd rfl hne
+    | cons a l => simp at hl
+  | cons x xs =>
+    rw [hsr] at hs hm htf
+    have h01' : ∀ z ∈ x :: xs, 0 ≤ z ∧ z ≤ 1 := fun z hz => h01 z ((hm z).1 hz)
+    have hsp : probvecSorted (x :: xs) = spacings 0 (x :: xs) := by
+      simp [probvecSorted, spacings]
+    have hsorted0 : List.Pairwise (· ≤ ·) ((0 : K) :: x :: xs) :=
+      List.pairwise_cons.2 ⟨fun z hz => (h01' z hz).1, hs⟩
+    have hle1 : ∀ z ∈ (0 : K) :: x :: xs, z ≤ 1 := by
+      intro z hz
+      rcases List.mem_cons.1 hz with rfl | hz'
+      · exact zero_le_one
+      · exact (h01' z hz').2
+    rw [hsp, spacings_countPos (x :: xs) 0 hsorted0 hle1, htf, filter_gt_eq_erase, card_insert_erase]
+    · simp
+    · intro v hv
+      rcases Finset.mem_insert.1 hv with rfl | hv'
+      · exact zero_le_one
+      · exact (h01 v (List.mem_toFinset.1 hv')).1
+
+example : (insert (0 : Rat) (insert 1 [(1 : Rat) / 4, 1 / 4, 0].toFinset)).card - 1 = 2 := by decide +kernel
+
+/-- the row depends only on the multiset of the uniforms (`r.sort()` first): any rearrangement of
+    the stream gives the same probability vector -/
+theorem probvecRow_perm (r r' : List K) (h : r.Perm r') : probvecRow r = probvecRow r' := by
+  unfold probvecRow
+  congr 1
+  exact List.Perm.eq_of_pairwise (le := fun a b : K => a ≤ b) (fun a b _ _ h1 h2 => le_antisymm h1 h2)
+    (sortAsc_sorted r) (sortAsc_sorted r') ((sortAsc_perm r).trans (h.trans (sortAsc_perm r').symm))
+
+/-- witnesses that the hypothesis cannot be dropped: tied or zero uniforms give zero entries -/
+example : probvecSorted [(0 : Rat), 0] = [0, 0, 1] := by norm_num [probvecSorted, spacings]
+example : probvecSorted [(1 : Rat) / 4, 1 / 4] = [1 / 4, 0, 3 / 4] := by norm_num [probvecSorted, spacings]
+example : ¬ ∀ y ∈ probvecRow [(1 : Rat) / 4, 1 / 4], 0 < y := by
+  rw [probvecRow_pos_iff _ (by simp)]; simp
+example : ∀ y ∈ probvecRow [(3 : Rat) / 4, 1 / 4, 1 / 2], 0 < y := by
+  rw [probvecRow_pos_iff _ (by simp)]; norm_num
+
+/-- `probvec(m, 1)` draws nothing and returns rows `(1)`; `probvec(m, k)` maps the kernel over the
+    rows of uniforms. -/
+theorem probvec_rows (m k : Nat) (r : List (List K)) (hr : r.length = m) :
+    (probvec m k r).length = m ∧
+      (k = 1 → ∀ row ∈ probvec m k r, row = [1]) ∧
+      (k ≠ 1 → probvec m k r = r.map probvecRow) := by
+  unfold probvec
+  by_cases hk : k = 1
+  · simp [hk]
+  · simp [hk, hr]
+
+end probvec
+
+/-! ## _random_stochastic_matrix : k-sparse rows -/
+
+section stoch
+set_option linter.unusedSectionVars false
+variable {K : Type} [Field K] [LinearOrder K] [IsStrictOrderedRing K]
+
+/-- **Scatter at distinct columns.** If the `k` columns are pairwise distinct and in range,
+    `P[cols] = data` on a zero row puts `data[t]` at column `cols[t]`, leaves 0 elsewhere,
+    keeps the sum and the number of positive entries of `data`. -/
+theorem placeRow_spec (n : Nat) (cols : List Nat) (data : List K) (hlen : cols.length = data.length)
+    (hnd : cols.Nodup) (hlt : ∀ c ∈ cols, c < n) :
+    (placeRow n cols data).length = n ∧
+    (∀ t (h : t < cols.length), (placeRow n cols data).getD cols[t] 0 = data[t]'(hlen ▸ h)) ∧
+    (∀ c, c ∉ cols → (placeRow n cols data).getD c 0 = 0) ∧
+    (placeRow n cols data).sum = data.sum ∧
+    (placeRow n cols data).countP (fun x => decide (0 < x)) = data.countP (fun x => decide (0 < x)) := by
+  have hfst : (cols.zip data).map Prod.fst = cols := List.map_fst_zip (by omega)
+  have hsnd : (cols.zip data).map Prod.snd = data := List.map_snd_zip (by omega)
+  have hin : ∀ p ∈ cols.zip data, p.1 < (List.replicate n (0 : K)).length := by
+    intro p hp
+    have : p.1 ∈ cols := by rw [← hfst]; exact List.mem_map_of_mem hp
+    simpa using hlt _ this
+  have h1 := scatter_spec (cols.zip data) (List.replicate n (0 : K)) (by rw [hfst]; exact hnd) hin
+  have h2 := scatter_sum_count (cols.zip data) (List.replicate n (0 : K)) (by rw [hfst]; exact hnd) hin
+    (fun p _ => getD_replicate_zero n p.1)
+  rw [placeRow_eq_scatter]
+  refine ⟨by simpa using h1.1, ?_, ?_, ?_, ?_⟩
+  · intro t ht
+    have hmem : (cols[t], data[t]'(hlen ▸ ht)) ∈ cols.zip data := by
+      have hlt' : t < (cols.zip data).length := by simp [List.length_zip]; omega
+      have := List.getElem_mem hlt'
+      simpa [List.getElem_zip] using this
+    exact h1.2.1 _ hmem
+  · intro c hc
+    rw [h1.2.2 c (by rw [hfst]; exact hc)]; exact getD_replicate_zero n c
+  · rw [h2.1, hsnd]; simp
+  · rw [h2.2, hsnd]; simp
+
+example : placeRow 4 [2, 0] [(1 : Rat) / 4, 3 / 4] = [3 / 4, 0, 1 / 4, 0] := by
+  norm_num [placeRow, List.zip, List.replicate]
+
+/-- **A row of the k-sparse stochastic matrix.** For every `n`, `k ≤ n`, every index stream with
+    `idx_j < n - j` and every `data` on the simplex (`probvecRow` by `probvecRow_simplex`), the row
+    `placeRow n (swr n idxs) data` has length `n`, entries `≥ 0`, sum `1`, and exactly as many
+    positive entries as `data`. -/
+theorem stoch_row_simplex (n : Nat) (idxs : List Nat) (data : List K)
+    (hlen : idxs.length = data.length) (hkn : idxs.length ≤ n)
+    (hidx : ∀ t (h : t < idxs.length), idxs[t] < n - t)
+    (hnn : ∀ y ∈ data, 0 ≤ y) (hsum : data.sum = 1) :
+    (placeRow n (swr n idxs) data).length = n ∧
+    (∀ y ∈ placeRow n (swr n idxs) data, 0 ≤ y) ∧
+    (placeRow n (swr n idxs) data).sum = 1 ∧
+    (placeRow n (swr n idxs) data).countP (fun x => decide (0 < x))
+      = data.countP (fun x => decide (0 < x)) := by
+  obtain ⟨hl, hnd, hlt⟩ := swr_distinct_in_range n idxs hkn hidx
+  obtain ⟨h1, h2, h3, h4, h5⟩ := placeRow_spec n (swr n idxs) data (by omega) hnd hlt
+  refine ⟨h1, ?_, by rw [h4, hsum], h5⟩
+  intro y hy
+  obtain ⟨c, hc, rfl⟩ := List.mem_iff_getElem.1 hy
+  have hgd : (placeRow n (swr n idxs) data)[c] = (placeRow n (swr n idxs) data).getD c 0 := by
+    rw [List.getD_eq_getElem?_getD]; simp [hc]
+  rw [hgd]
+  by_cases hcm : c ∈ swr n idxs
+  · obtain ⟨t, ht, rfl⟩ := List.mem_iff_getElem.1 hcm
+    rw [h2 t ht]
+    exact hnn _ (List.getElem_mem _)
+  · rw [h3 c hcm]
+
+/-- **Exactly k positive entries per row** (`k ≥ 2`, `k ≤ n`): with `k-1` pairwise distinct
+    uniforms strictly inside (0,1) the row built from `probvecRow` and the sampled columns is a
+    probability vector of length `n` with exactly `k` positive entries. -/
+theorem stoch_row_k_positive (n : Nat) (r : List K) (idxs : List Nat) (hne : r ≠ [])
+    (hk : idxs.length = r.length + 1) (hkn : idxs.length ≤ n)
+    (hidx : ∀ t (h : t < idxs.length), idxs[t] < n - t)
+    (hnd : r.Nodup) (h01 : ∀ x ∈ r, 0 < x ∧ x < 1) :
+    (placeRow n (swr n idxs) (probvecRow r)).length = n ∧
+    (∀ y ∈ placeRow n (swr n idxs) (probvecRow r), 0 ≤ y) ∧
+    (placeRow n (swr n idxs) (probvecRow r)).sum = 1 ∧
+    (placeRow n (swr n idxs) (probvecRow r)).countP (fun x => decide (0 < x)) = idxs.length := by
+  obtain ⟨pl, pnn, psum⟩ := probvecRow_simplex r hne (fun x hx => ⟨le_of_lt (h01 x hx).1, le_of_lt (h01 x hx).2⟩)
+  obtain ⟨h1, h2, h3, h4⟩ := stoch_row_simplex n idxs (probvecRow r) (by omega) hkn hidx pnn psum
+  refine ⟨h1, h2, h3, ?_⟩
+  rw [h4, List.countP_eq_length.2, pl, hk]
+  intro y hy
+  simpa using (probvecRow_pos_iff r hne).2 ⟨hnd, h01⟩ y hy
+
+example : (∀ t (h : t < [3, 0, 1].length), [3, 0, 1][t] < 4 - t) ∧ [(1 : Rat) / 4, 3 / 4].Nodup ∧
+    ∀ x ∈ [(1 : Rat) / 4, 3 / 4], 0 < x ∧ x < 1 := by
+  refine ⟨by decide, by norm_num, ?_⟩
+  intro x hx; simp at hx; rcases hx with rfl | rfl <;> norm_num
+
+/-- **The whole matrix** (`k < n` branch of `_random_stochastic_matrix`): if every row of `pv` is a
+    point of the simplex with `k` entries and every index row satisfies the sampler's guard, every
+    row of the dense result has length `n`, entries `≥ 0`, sum 1 and as many positive entries as the
+    corresponding row of `pv`.  For `k = n` the result is `pv` itself. -/
+theorem stochDense_spec (n k : Nat) (pv : List (List K)) (idxss : List (List Nat))
+    (hlen : pv.length = idxss.length)
+    (hrow : ∀ t (h1 : t < pv.length) (h2 : t < idxss.length),
+      idxss[t].length = pv[t].length ∧ idxss[t].length ≤ n ∧
+      (∀ s (h : s < idxss[t].length), idxss[t][s] < n - s) ∧
+      (∀ y ∈ pv[t], 0 ≤ y) ∧ pv[t].sum = 1) :
+    (k = n → stochDense n k pv (idxss.map (swr n)) = pv) ∧
+    (k ≠ n → (stochDense n k pv (idxss.map (swr n))).length = pv.length ∧
+      ∀ t (h : t < (stochDense n k pv (idxss.map (swr n))).length) (h1 : t < pv.length),
+        let row := (stochDense n k pv (idxss.map (swr n)))[t]
+        row.length = n ∧ (∀ y ∈ row, 0 ≤ y) ∧ row.sum = 1 ∧
+          row.countP (fun x => decide (0 < x)) = pv[t].countP (fun x => decide (0 < x))) := by
+  unfold stochDense
+  constructor
+  · intro h; rw [if_pos h]
+  · intro h
+    rw [if_neg h]
+    refine ⟨by simp [hlen], ?_⟩
+    intro t ht h1
+    have h2 : t < idxss.length := by omega
+    obtain ⟨r1, r2, r3, r4, r5⟩ := hrow t h1 h2
+    have := stoch_row_simplex n idxss[t] pv[t] r1 r2 r3 r4 r5
+    simpa [List.getElem_map, List.getElem_zip] using this
+
+/-- the CSR form stores exactly the `k` triplets, at `k` distinct columns -/
+theorem sparseRow_spec (cols : List Nat) (data : List K) (hlen : cols.length = data.length)
+    (hnd : cols.Nodup) :
+    (sparseRow cols data).length = cols.length ∧ ((sparseRow cols data).map Prod.fst).Nodup ∧
+    (sparseRow cols data).Perm (cols.zip data) := by
+  have hp : (sparseRow cols data).Perm (cols.zip data) := List.mergeSort_perm _ _
+  have hfst : (cols.zip data).map Prod.fst = cols := List.map_fst_zip (by omega)
+  refine ⟨by rw [hp.length_eq, List.length_zip]; omega, ?_, hp⟩
+  have := (hp.map Prod.fst).nodup_iff.2 (by rw [hfst]; exact hnd)
+  exact this
+
+/-- dense and sparse forms agree: every stored triplet `(c, v)` of the CSR row is the entry of the
+    dense row at column `c`, and every other column of the dense row is 0 -/
+theorem sparse_dense_agree (n : Nat) (cols : List Nat) (data : List K) (hlen : cols.length = data.length)
+    (hnd : cols.Nodup) (hlt : ∀ c ∈ cols, c < n) :
+    (∀ p ∈ sparseRow cols data, (placeRow n cols data).getD p.1 0 = p.2) ∧
+    (∀ c, c ∉ (sparseRow cols data).map Prod.fst → (placeRow n cols data).getD c 0 = 0) := by
+  obtain ⟨_, h2, h3, _, _⟩ := placeRow_spec n cols data hlen hnd hlt
+  obtain ⟨_, _, hp⟩ := sparseRow_spec cols data hlen hnd
+  have hfst : (cols.zip data).map Prod.fst = cols := List.map_fst_zip (by omega)
+  constructor
+  · intro p hp'
+    have hmem : p ∈ cols.zip data := hp.mem_iff.1 hp'
+    obtain ⟨t, ht, hpt⟩ := List.mem_iff_getElem.1 hmem
+    have ht' : t < cols.length := by simp [List.length_zip] at ht; omega
+    have := h2 t ht'
+    rw [List.getElem_zip] at hpt
+    rw [← hpt]; exact this
+  · intro c hc
+    apply h3
+    intro hcm
+    apply hc
+    rw [(hp.map Prod.fst).mem_iff, hfst]; exact hcm
+
+end stoch
+
+/-! ## random_stochastic_matrix, end to end in exact arithmetic -/
+
+/-- **`_random_stochastic_matrix(m, n, k)` from its two uniform streams** (`2 ≤ k < n`, exact rational
+    arithmetic): if the `m × (k-1)` uniforms of `probvec` are pairwise distinct within each row and
+    strictly inside (0,1), and the `m × k` uniforms of the column sampler lie in `[0,1)`, then the
+    dense result has `m` rows, and every row has length `n`, non-negative entries, sum 1 and
+    **exactly `k` positive entries**. -/
+theorem random_stochastic_matrix_spec (m n k : Nat) (hk2 : 2 ≤ k) (hkn : k < n)
+    (r1 : List (List Rat)) (r2 : List (List Rat)) (h1l : r1.length = m) (h2l : r2.length = m)
+    (h1 : ∀ row ∈ r1, row.length = k - 1 ∧ row.Nodup ∧ ∀ x ∈ row, 0 < x ∧ x < 1)
+    (h2 : ∀ row ∈ r2, row.length = k ∧ ∀ x ∈ row, 0 ≤ x ∧ x < 1) :
+    let P := stochDense n k (probvec m k r1) ((r2.map (idxsRat n 0)).map (swr n))
+    P.length = m ∧ ∀ row ∈ P, row.length = n ∧ (∀ y ∈ row, 0 ≤ y) ∧ row.sum = 1 ∧
+      row.countP (fun x => decide (0 < x)) = k := by
+  intro P
+  have hpv : probvec m k r1 = r1.map probvecRow := by
+    unfold probvec; rw [if_neg (by omega)]
+  have hlenI : ∀ (rs : List Rat) (j : Nat), (idxsRat n j rs).length = rs.length := by
+    intro rs; induction rs with
+    | nil => intro j; rfl
+    | cons r rest ih => intro j; simp [idxsRat, ih]
+  have hspec := stochDense_spec n k (r1.map probvecRow) (r2.map (idxsRat n 0)) (by simp [h1l, h2l])
+    (by
+      intro t ht1 ht2
+      simp only [List.length_map] at ht1 ht2
+      simp only [List.getElem_map]
+      obtain ⟨a1, a2, a3⟩ := h1 r1[t] (List.getElem_mem _)
+      obtain ⟨b1, b2⟩ := h2 r2[t] (List.getElem_mem _)
+      have hne : r1[t] ≠ [] := by intro e; rw [e] at a1; simp at a1; omega
+      obtain ⟨pl, pnn, psum⟩ := probvecRow_simplex r1[t] hne
+        (fun x hx => ⟨le_of_lt (a3 x hx).1, le_of_lt (a3 x hx).2⟩)
+      refine ⟨by rw [hlenI, pl, b1, a1]; omega, by rw [hlenI, b1]; omega, ?_, pnn, psum⟩
+      intro s hs
+      have := idxsRat_guard n r2[t] 0 (by rw [b1]; omega) b2 s hs
+      simpa using this)
+  have hP : P = stochDense n k (r1.map probvecRow) ((r2.map (idxsRat n 0)).map (swr n)) := by
+    show stochDense n k (probvec m k r1) _ = _
+    rw [hpv]
+  obtain ⟨hPl, hrows⟩ := hspec.2 (by omega)
+  rw [hP]
+  refine ⟨by rw [hPl]; simp [h1l], ?_⟩
+  intro row hrow
+  obtain ⟨t, ht, rfl⟩ := List.mem_iff_getElem.1 hrow
+  have ht1 : t < (r1.map probvecRow).length := by rw [hPl] at ht; exact ht
+  obtain ⟨c1, c2, c3, c4⟩ := hrows t ht ht1
+  refine ⟨c1, c2, c3, ?_⟩
+  rw [c4]
+  simp only [List.getElem_map]
+  have ht1' : t < r1.length := by simpa using ht1
+  obtain ⟨a1, a2, a3⟩ := h1 r1[t] (List.getElem_mem _)
+  have hne : r1[t] ≠ [] := by intro e; rw [e] at a1; simp at a1; omega
+  obtain ⟨pl, _, _⟩ := probvecRow_simplex r1[t] hne
+    (fun x hx => ⟨le_of_lt (a3 x hx).1, le_of_lt (a3 x hx).2⟩)
+  rw [List.countP_eq_length.2, pl, a1]
+  · omega
+  · intro y hy
+    simpa using (probvecRow_pos_iff r1[t] hne).2 ⟨a2, a3⟩ y hy
+
+example : (∀ row ∈ [[(1 : Rat) / 2]], row.length = 2 - 1 ∧ row.Nodup ∧ ∀ x ∈ row, 0 < x ∧ x < 1) ∧
+    (∀ row ∈ [[(0 : Rat), 9 / 10]], row.length = 2 ∧ ∀ x ∈ row, 0 ≤ x ∧ x < 1) ∧
+    (swr 3 (idxsRat 3 0 [(0 : Rat), 9 / 10]) = [0, 1]) := by
+  refine ⟨?_, ?_, by decide +kernel⟩
+  · intro row hrow; simp at hrow; subst hrow; norm_num
+  · intro row hrow; simp at hrow; subst hrow
+    refine ⟨rfl, ?_⟩
+    intro x hx; simp at hx; rcases hx with rfl | rfl <;> norm_num
+
+/-! ## random_discrete_dp : rows of Q and state-action pairs -/
+
+/-- **The two formulations index the same rows.** For all `num_states`, `num_actions ≥ 1` the
+    `sa_pair` formulation lists `L = ns·na` pairs, and the pair attached to row `r` of `Q` is
+    `(r / na, r % na)` — the pair that the product formulation's C-order reshape
+    `Q.shape = (ns, na, ns)` assigns to the same row.  Hence every state `s < ns` has all `na`
+    actions, the pairs are pairwise distinct and sorted lexicographically (what `DiscreteDP`
+    requires of `s_indices`, `a_indices`). -/
+theorem ddp_sa_indices_spec (ns na : Nat) (hna : 0 < na) :
+    (saIndices ns na).length = ns * na ∧
+    (∀ r (h : r < (saIndices ns na).length), (saIndices ns na)[r] = reshapeIndex na r) ∧
+    (∀ s a, s < ns → a < na → (s, a) ∈ saIndices ns na) ∧ (saIndices ns na).Nodup := by
+  rw [saIndices_eq na hna ns]
+  refine ⟨by simp, by intro r h; simp, ?_, ?_⟩
+  · intro s a hs ha
+    refine List.mem_map.2 ⟨s * na + a, List.mem_range.2 ?_, ?_⟩
+    · calc s * na + a < s * na + na := by omega
+        _ = (s + 1) * na := by ring
+        _ ≤ ns * na := Nat.mul_le_mul_right _ hs
+    · unfold reshapeIndex
+      rw [Nat.mul_comm s na, Nat.mul_add_div hna, Nat.mul_add_mod, Nat.div_eq_of_lt ha, Nat.mod_eq_of_lt ha]
+      simp
+  · refine List.Nodup.map_on ?_ List.nodup_range
+    intro x _ y _ h
+    unfold reshapeIndex at h
+    simp only [Prod.mk.injEq] at h
+    rw [← Nat.div_add_mod x na, ← Nat.div_add_mod y na, h.1, h.2]
+
+example : saIndices 2 3 = [(0, 0), (0, 1), (0, 2), (1, 0), (1, 1), (1, 2)] := by decide
+
+/-! ## random_tournament_graph -/
+
+/-- **A tournament.** For every `n` and every stream of `n(n-1)/2` comparisons `r_k < ½`, the
+    edge list has `n(n-1)/2` entries, no loops, only nodes `< n`, and for every two different
+    nodes exactly one of the two possible edges. -/
+theorem tournament_spec (n : Nat) (bs : List Bool) (hlen : bs.length = n * (n - 1) / 2) :
+    (tournEdges n bs).length = n * (n - 1) / 2 ∧
+    (∀ x y, (x, y) ∈ tournEdges n bs → x ≠ y ∧ x < n ∧ y < n) ∧
+    (∀ a b, a < n → b < n → a ≠ b → ((a, b) ∈ tournEdges n bs ↔ (b, a) ∉ tournEdges n bs)) := by
+  have hl : bs.length = (tournPairs n).length := by rw [length_tournPairs]; exact hlen
+  refine ⟨?_, fun x y h => tournEdges_mem n bs x y h, ?_⟩
+  · unfold tournEdges
+    rw [List.length_zipWith, ← hl]; simp [hlen]
+  · intro a b ha hb hab
+    rcases Nat.lt_or_gt_of_ne hab with h | h
+    · obtain ⟨t, ht, h1, h2⟩ := tournEdges_pair n bs hl a b h hb
+      rw [h1, h2]; cases bs[t] <;> simp
+    · obtain ⟨t, ht, h1, h2⟩ := tournEdges_pair n bs hl b a h ha
+      rw [h1, h2]; cases bs[t] <;> simp
+
+example : tournEdges 3 [true, false, true] = [(0, 1), (2, 0), (1, 2)] := by decide
+
+/-- the CSR successor lists read by `tournament_game`: node `j` is listed for `i` iff `(i, j)` is
+    an edge, in increasing order -/
+theorem succOf_spec (n : Nat) (edges : List (Nat × Nat)) (i : Nat) :
+    (∀ j, j ∈ succOf n edges i ↔ j < n ∧ (i, j) ∈ edges) ∧ (succOf n edges i).Pairwise (· < ·) := by
+  unfold succOf
+  constructor
+  · intro j; simp [List.mem_filter]
+  · exact List.Pairwise.filter _ List.pairwise_lt_range
+
+/-- in the CSR successor lists: for two different nodes exactly one lists the other -/
+theorem tournament_succ_exactly_one (n : Nat) (bs : List Bool) (hlen : bs.length = n * (n - 1) / 2)
+    (a b : Nat) (ha : a < n) (hb : b < n) (hab : a ≠ b) :
+    b ∈ succOf n (tournEdges n bs) a ↔ a ∉ succOf n (tournEdges n bs) b := by
+  rw [(succOf_spec n _ a).1 b, (succOf_spec n _ b).1 a]
+  have := (tournament_spec n bs hlen).2.2 a b ha hb hab
+  constructor
+  · rintro ⟨_, h⟩ ⟨_, h'⟩; exact (this.1 h) h'
+  · intro h; exact ⟨hb, this.2 (fun h' => h ⟨ha, h'⟩)⟩
+
+/-! ## bimatrix generators -/
+
+section games
+set_option linter.unusedSectionVars false
+variable {K : Type} [Field K] [LinearOrder K] [IsStrictOrderedRing K]
+
+/-- **Blotto.** For every pair of actions and every list of hill values the accumulated payoffs
+    are the definition: player 0 gets the sum over the hills of `v₀` where he has strictly more
+    troops, `v₀/2` on a tie (`hill0`), player 1 symmetrically (`hill1`). -/
+theorem blotto_def (ai aj : List Nat) (values : List (K × K)) :
+    (blottoPair ai aj values).1 = (((ai.zip aj).zip values).map hill0).sum ∧
+    (blottoPair ai aj values).2 = (((ai.zip aj).zip values).map hill1).sum := by
+  rw [blottoPair_eq_foldl, blotto_foldl]; simp
+
+/-- entry `(i, j)` of player 0's array and entry `(j, i)` of player 1's array come from the
+    same pair of actions (`payoff_arrays[0][i, j], payoff_arrays[1][j, i] = payoffs`) -/
+theorem blotto_arrays (actions : List (List Nat)) (values : List (K × K)) (i j : Nat)
+    (hi : i < actions.length) (hj : j < actions.length) :
+    ((blotto0 actions values).getD i []).getD j 0 = (blottoPair actions[i] actions[j] values).1 ∧
+    ((blotto1 actions values).getD j []).getD i 0 = (blottoPair actions[i] actions[j] values).2 := by
+  simp [blotto0, blotto1, List.getD_eq_getElem?_getD, hi, hj]
+
+example : blottoPair [2, 1] [1, 2] [((3 : Rat), 5), (7, 11)] = (3, 11) := by
+  norm_num [blottoPair, List.zip, List.foldl]
+
+/-- every hill's value is awarded exactly once between the mirrored action pairs `(aᵢ, aⱼ)` and
+    `(aⱼ, aᵢ)`: the two payoffs of a player add up to the total value of the hills to him -/
+theorem blotto_mirror (ai aj : List Nat) (values : List (K × K)) :
+    (blottoPair ai aj values).1 + (blottoPair aj ai values).1
+      = (((ai.zip aj).zip values).map fun xv => xv.2.1).sum ∧
+    (blottoPair ai aj values).2 + (blottoPair aj ai values).2
+      = (((ai.zip aj).zip values).map fun xv => xv.2.2).sum := by
+  rw [(blotto_def ai aj values).1, (blotto_def aj ai values).1, (blotto_def ai aj values).2,
+    (blotto_def aj ai values).2]
+  exact blotto_mirror_sum ai aj values
+
+/-- **Ranking game.** Each entry is the value of the prize (1 to the higher score, ½ each on a
+    tie, 0 to the lower) minus the cost of the own effort level (0 for level 0). -/
+theorem ranking_def (s0 s1 : List Nat) (c0 c1 : List K) (i j : Nat) :
+    rank0 s0 s1 c0 i j
+      = (if s0.getD i 0 > s1.getD j 0 then 1 else if s0.getD i 0 = s1.getD j 0 then 1 / 2 else 0)
+        - (if i = 0 then 0 else c0.getD (i - 1) 0) ∧
+    rank1 s0 s1 c1 j i
+      = (if s1.getD j 0 > s0.getD i 0 then 1 else if s0.getD i 0 = s1.getD j 0 then 1 / 2 else 0)
+        - (if j = 0 then 0 else c1.getD (j - 1) 0) := by
+  have h2 : (1 : K) + 1 = 2 := by norm_num
+  unfold rank0 rank1 rankBase
+  generalize s0.getD i 0 = x
+  generalize s1.getD j 0 = y
+  rw [h2]
+  constructor <;> split_ifs <;> first | ring1 | (exfalso; omega)
+
+/-- the prize is split: the two payoffs plus the two costs always add up to the prize 1 -/
+theorem ranking_prize_split (s0 s1 : List Nat) (c0 c1 : List K) (i j : Nat) :
+    rank0 s0 s1 c0 i j + (if i = 0 then 0 else c0.getD (i - 1) 0)
+      + (rank1 s0 s1 c1 j i + (if j = 0 then 0 else c1.getD (j - 1) 0)) = 1 := by
+  obtain ⟨h0, h1⟩ := ranking_def s0 s1 c0 c1 i j
+  rw [h0, h1]
+  generalize s0.getD i 0 = x
+  generalize s1.getD j 0 = y
+  rcases Nat.lt_trichotomy x y with h | h | h
+  · have a1 : ¬ x > y := by omega
+    have a2 : ¬ x = y := by omega
+    have a3 : y > x := h
+    simp only [a1, a2, a3, if_true, if_false]; ring
+  · subst h; simp only [gt_iff_lt, lt_irrefl, if_false, if_true]; ring
+  · have a1 : x > y := h
+    have a2 : ¬ x = y := by omega
+    have a3 : ¬ y > x := by omega
+    simp only [a1, a2, a3, if_true, if_false]; ring
+
+/-- scores are strictly increasing in the effort level when every step is at least 1 -/
+theorem ranking_scores_increasing (draws : List Nat) (h : ∀ x ∈ draws, 1 ≤ x) :
+    (cumsumNat 0 draws).Pairwise (· < ·) := cumsumNat_strict draws 0 h
+
+/-- costs: with `n-1` steps in `[1, steps]` every cost `cumsum/(n·steps)` lies strictly between 0
+    and 1 ("the maximum possible cost of effort level n-1 is less than or equal to 1") -/
+theorem ranking_costs_in_unit (n steps : Nat) (draws : List Nat) (hlen : draws.length + 1 = n)
+    (hd : ∀ x ∈ draws, 1 ≤ x ∧ x ≤ steps) :
+    ∀ c ∈ rankCosts (fun m : Nat => (m : K)) n steps draws, 0 < c ∧ c < 1 := by
+  intro c hc
+  unfold rankCosts at hc
+  obtain ⟨s, hs, rfl⟩ := List.mem_map.1 hc
+  obtain ⟨j, hj, hsj⟩ := (List.mem_iff_getElem).1 hs
+  rw [cumsumNat_length] at hj
+  have hgd : (cumsumNat 0 draws).getD j 0 = s := by
+    rw [List.getD_eq_getElem?_getD]; simp [cumsumNat_length, hj, hsj]
+  have hval := cumsumNat_getD draws 0 j hj
+  rw [hgd] at hval
+  have hpos : 0 < s := cumsumNat_gt draws 0 (fun x hx => (hd x hx).1) s hs
+  have hsteps : 1 ≤ steps := by
+    cases draws with
+    | nil => simp at hj
+    | cons x _ => have := hd x (by simp); omega
+  have hub : s ≤ draws.length * steps := by
+    rw [hval, Nat.zero_add]
+    have h1 : (draws.take (j + 1)).sum ≤ (draws.take (j + 1)).length * steps := by
+      have hgen : ∀ l : List Nat, (∀ x ∈ l, x ≤ steps) → l.sum ≤ l.length * steps := by
+        intro l; induction l with
+        | nil => intro _; simp
+        | cons x l ih =>
+          intro h
+          have hx := h x (by simp)
+          have := ih (fun y hy => h y (List.mem_cons_of_mem _ hy))
+          simp only [List.sum_cons, List.length_cons, Nat.add_mul, Nat.one_mul]; omega
+      exact hgen _ (fun x hx => (hd x (List.mem_of_mem_take hx)).2)
+    have h2 : (draws.take (j + 1)).length ≤ draws.length := by simp
+    exact le_trans h1 (Nat.mul_le_mul_right _ h2)
+  have hlt : s < n * steps := by
+    have : draws.length * steps < n * steps := Nat.mul_lt_mul_of_lt_of_le (by omega) (le_refl _) (by omega)
+    omega
+  have hden : (0 : K) < ((n * steps : Nat) : K) := by exact_mod_cast (by omega : 0 < n * steps)
+  constructor
+  · apply div_pos _ hden
+    show (0 : K) < ((s : Nat) : K)
+    exact_mod_cast hpos
+  · rw [div_lt_one hden]
+    show ((s : Nat) : K) < _
+    exact_mod_cast hlt
+
+example : ([2, 1].length + 1 = 3) ∧ ∀ x ∈ [2, 1], 1 ≤ x ∧ x ≤ 2 := by decide
+example : rankCosts (fun m : Nat => (m : Rat)) 3 2 [2, 1] = [1 / 3, 1 / 2] := by
+  norm_num [rankCosts, cumsumNat]
+
+example : cumsumNat 0 [2, 1, 3] = [2, 3, 6] := by decide
+
+/-- **Unit vector game.** Entry `(r, c)` of player 0's array is 1 exactly at the drawn row of
+    column `c`, so every column holds exactly one 1 and zeros elsewhere. -/
+theorem unit_vector_def (n : Nat) (ones : List Nat) (r c : Nat) (hr : r < n) (hc : c < n) :
+    ((uvPlain (α := K) n ones).getD r []).getD c 0 = if ones.getD c n = r then 1 else 0 := by
+  simp [uvPlain, List.getD_eq_getElem?_getD, hr, hc]
+
+theorem unit_vector_one_per_column (n : Nat) (ones : List Nat) (c : Nat) (hc : c < n)
+    (ho : ones.getD c n < n) :
+    ∃ r, r < n ∧ ((uvPlain (α := K) n ones).getD r []).getD c 0 = 1 ∧
+      ∀ r', r' < n → r' ≠ r → ((uvPlain (α := K) n ones).getD r' []).getD c 0 = 0 := by
+  refine ⟨ones.getD c n, ho, by rw [unit_vector_def n ones _ c ho hc]; simp, ?_⟩
+  intro r' hr' hne
+  rw [unit_vector_def n ones r' c hr' hc, if_neg (fun e => hne e.symm)]
+
+/-- pure Nash equilibrium of a bimatrix game given by the two players' arrays (own action first) -/
+def PureNash (n : Nat) (A B : List (List K)) (a i : Nat) : Prop :=
+  (∀ a', a' < n → (A.getD a' []).getD i 0 ≤ (A.getD a []).getD i 0) ∧
+  (∀ i', i' < n → (B.getD i' []).getD a 0 ≤ (B.getD i []).getD a 0)
+
+/-- **avoid_pure_nash.** For every payoff array `P` of player 1 (`n` rows) and every stream of
+    integer draws `< n` that lets the rejection loop finish, the accepted rows are in range and
+    the resulting game has **no** pure Nash equilibrium. -/
+theorem uvAvoid_no_pure_nash (n : Nat) (P : List (List K)) (hP : P.length = n)
+    (draws ones rest : List Nat) (hd : ∀ d ∈ draws, d < n)
+    (h : uvAvoidOnes P (List.range n) draws = some (ones, rest)) :
+    ones.length = n ∧ (∀ c, c < n → ones.getD c n < n) ∧
+      ∀ a i, a < n → i < n → ¬ PureNash n (uvPlain n ones) P a i := by
+  obtain ⟨hl, hsub, _⟩ := uvAvoidOnes_spec P (List.range n) draws ones rest h
+  have hl' : ones.length = n := by simpa using hl
+  have hget : ∀ c, c < n → ∃ hc : c < ones.length, ones.getD c n = ones[c] := by
+    intro c hc
+    exact ⟨by omega, by rw [List.getD_eq_getElem?_getD]; simp [hl', hc]⟩
+  have hacc : ∀ c (hc : c < n), isSubopt P c (ones.getD c n) = true ∧ ones.getD c n < n := by
+    intro c hc
+    obtain ⟨hc', he⟩ := hget c hc
+    have := hsub c (by simpa using hc) hc'
+    rw [he]
+    simp only [List.getElem_range] at this
+    exact ⟨this.1, hd _ this.2⟩
+  refine ⟨hl', fun c hc => (hacc c hc).2, ?_⟩
+  rintro a i ha hi ⟨h0, h1⟩
+  obtain ⟨hsu, hdn⟩ := hacc i hi
+  by_cases had : a = ones.getD i n
+  · -- player 1's action i is not a best response to the accepted row
+    subst had
+    unfold isSubopt at hsu
+    have hlt : (P.getD i []).getD (ones.getD i n) 0 < colMax P (ones.getD i n) := by simpa using hsu
+    have hne : P ≠ [] := by intro e; rw [e] at hP; simp at hP; omega
+    obtain ⟨row, hrow, hrm⟩ := (colMax_spec P (ones.getD i n) hne).2
+    obtain ⟨i', hi', rfl⟩ := List.mem_iff_getElem.1 hrow
+    have := h1 i' (by omega)
+    have hg : P.getD i' [] = P[i'] := by rw [List.getD_eq_getElem?_getD]; simp [hi']
+    rw [hg, hrm] at this
+    exact absurd hlt (not_lt.2 this)
+  · -- player 0 gets 0 at (a, i) but 1 at the accepted row
+    have := h0 (ones.getD i n) hdn
+    rw [unit_vector_def n ones _ i hdn hi, unit_vector_def n ones a i ha hi] at this
+    rw [if_pos rfl, if_neg (fun e => had e.symm)] at this
+    exact absurd this (not_le.2 one_pos)
+
+example : uvAvoidOnes [[(1 : Rat), 0], [0, 1]] (List.range 2) [0, 1, 1, 0] = some ([1, 0], []) := by
+  decide +kernel
+
+/-- the redraw test `(nums_suboptimal == 0).any()` is false exactly when every action of player 1
+    is suboptimal against some action `< n` of player 0 — which is what lets the rejection loop
+    accept a draw for every column -/
+theorem uvMustRedraw_false_iff (n : Nat) (P : List (List K)) :
+    uvMustRedraw n P = false ↔ ∀ a, a < n → ∃ b, b < n ∧ isSubopt P a b = true := by
+  unfold uvMustRedraw
+  rw [Bool.eq_false_iff]
+  simp only [ne_eq, List.any_eq_true, List.mem_range, List.all_eq_true, Bool.not_eq_true',
+    not_exists, not_and, not_forall]
+  constructor
+  · intro h a ha
+    obtain ⟨b, hb, hs⟩ := h a ha
+    exact ⟨b, hb, by simpa using hs⟩
+  · intro h a ha
+    obtain ⟨b, hb, hs⟩ := h a ha
+    exact ⟨b, hb, by simp [hs]⟩
+
+/-- the rejection loop accepts as soon as an acceptable draw arrives -/
+theorem uvPick_accepts (P : List (List K)) (i : Nat) (draws : List Nat)
+    (h : ∃ d ∈ draws, isSubopt P i d = true) : ∃ d rest, uvPick P i draws = some (d, rest) :=
+  uvPick_complete P i draws h
+
+end games
+
+/-! ## tournament game -/
+
+/-- **next_k_array is the successor of the combinatorial number system.** For a strictly
+    increasing array of length `k ≥ 1` (`Incr`: adjacent entries increase) the result is strictly
+    increasing, of the same length, and its rank `Σ_j C(a_j, j+1)` is one larger; hence the `j`-th
+    array visited from `(0,…,k-1)` is the increasing array of rank `j`, and two increasing arrays
+    of equal length and rank are equal. (Facts about the C16 model `nextKArray` / `kArrayRank`,
+    proved here because the tournament game enumerates player 1's actions with them.) -/
+theorem next_k_array_successor (a : List Nat) (hk : 1 ≤ a.length) (hinc : Incr a) :
+    (QE.C16.nextKArray a).length = a.length ∧ Incr (QE.C16.nextKArray a) ∧
+      QE.C16.kArrayRank (QE.C16.nextKArray a) = QE.C16.kArrayRank a + 1 :=
+  nextKArray_spec a hk hinc
+
+theorem next_k_array_walk (k : Nat) (hk : 1 ≤ k) (j : Nat) :
+    (QE.C16.nextKArray^[j] (List.range k)).length = k ∧ Incr (QE.C16.nextKArray^[j] (List.range k)) ∧
+      QE.C16.kArrayRank (QE.C16.nextKArray^[j] (List.range k)) = j :=
+  walk_spec k hk j
+
+theorem k_array_rank_injective (a b : List Nat) (hl : a.length = b.length) (ha : Incr a) (hb : Incr b)
+    (he : QE.C16.kArrayRank a = QE.C16.kArrayRank b) : a = b :=
+  kArrayRank_inj a b hl ha hb he
+
+example : QE.C16.nextKArray [0, 1, 2, 5] = [0, 1, 3, 5] ∧ QE.C16.kArrayRank [0, 1, 2, 5] = 5 ∧
+    QE.C16.kArrayRank [0, 1, 3, 5] = 6 := by decide
+example : Incr [0, 1, 2, 5] := by
+  intro j hj
+  have : j = 0 ∨ j = 1 ∨ j = 2 := by simp at hj; omega
+  rcases this with rfl | rfl | rfl <;> decide
+
+/-- row `j` of player 1's array is the indicator vector of the `j`-th array visited by the loop -/
+theorem tg1Rows_indicator (n m k j c : Nat) (hj : j < m)
+    (hX : ∀ x ∈ QE.C16.nextKArray^[j] (List.range k), x < n) :
+    ((tg1Rows (α := Nat) n m (List.range k)).getD j []).getD c 0
+      = if c ∈ QE.C16.nextKArray^[j] (List.range k) then 1 else 0 := by
+  rw [tg1Rows_eq]
+  have : ((List.range m).map fun j => markRow (List.replicate n 0) (QE.C16.nextKArray^[j] (List.range k))).getD j []
+      = markRow (List.replicate n 0) (QE.C16.nextKArray^[j] (List.range k)) := by
+    simp [List.getD_eq_getElem?_getD, hj]
+  rw [this, (markRow_spec _ _ (by simpa using hX)).2 c]
+  split
+  · rfl
+  · rw [List.getD_eq_getElem?_getD]; by_cases h : c < n <;> simp [h]
+
+/-- **Tournament game, player 1.** For every `n`, `k ≥ 1` and every `k`-subset `S` of the nodes
+    (a strictly increasing list of `k` nodes `< n`): its rank in the combinatorial number system is
+    a valid action index `< C(n,k)`, and in row `rank S` of player 1's array the entry for node `c`
+    is 1 iff `c ∈ S`. -/
+theorem tournament_game_p1 (n k : Nat) (hk : 1 ≤ k) (S : List Nat) (hS : S.length = k)
+    (hinc : Incr S) (hlt : ∀ x ∈ S, x < n) (c : Nat) :
+    QE.C16.kArrayRank S < Nat.choose n k ∧
+    ((tg1Rows (α := Nat) n (QE.C16.chooseFast n k) (List.range k)).getD (QE.C16.kArrayRank S) []).getD c 0
+      = if c ∈ S then 1 else 0 := by
+  have hlast : S.getD (S.length - 1) 0 < n := by
+    apply hlt
+    rw [List.getD_eq_getElem?_getD]
+    have : S.length - 1 < S.length := by omega
+    simp [this]
+  have hb := kArrayRank_bounds S (by omega) hinc
+  have hrk : QE.C16.kArrayRank S < Nat.choose n k := by
+    have := Nat.choose_le_choose S.length (show S.getD (S.length - 1) 0 + 1 ≤ n from hlast)
+    rw [hS] at this hb
+    omega
+  refine ⟨hrk, ?_⟩
+  obtain ⟨w1, w2, w3⟩ := walk_spec k hk (QE.C16.kArrayRank S)
+  have hXS : QE.C16.nextKArray^[QE.C16.kArrayRank S] (List.range k) = S :=
+    kArrayRank_inj _ _ (by omega) w2 hinc w3
+  have := tg1Rows_indicator n (QE.C16.chooseFast n k) k (QE.C16.kArrayRank S) c
+    (by rw [QE.C16.chooseFast_eq_choose]; exact hrk) (by rw [hXS]; exact hlt)
+  rw [this, hXS]
+
+/-- **Tournament game, player 0.** Let `succ` be the increasing list of successors of node `i`
+    (nodes `< n`; see `succOf_spec`).  For every `k ≥ 1` and every `k`-subset `S` of the nodes
+    (strictly increasing list), the entry of row `i` of player 0's array in column `rank S` is 1
+    iff every node of `S` is a successor of `i` (node `i` dominates `S`), and 0 otherwise. -/
+theorem tournament_game_p0 (n k : Nat) (hk : 1 ≤ k) (succ : List Nat) (hs : Incr succ)
+    (hsn : ∀ x ∈ succ, x < n) (S : List Nat) (hS : S.length = k) (hinc : Incr S) :
+    (tg0Row (α := Nat) (QE.C16.chooseFast n k) k succ).getD (QE.C16.kArrayRank S) 0
+      = if ∀ x ∈ S, x ∈ succ then 1 else 0 := by
+  have hdn : succ.length ≤ n := incr_length_le succ hs n hsn
+  have hm : Nat.choose succ.length k ≤ QE.C16.chooseFast n k := by
+    rw [QE.C16.chooseFast_eq_choose]; exact Nat.choose_le_choose k hdn
+  -- every position array with entries below `d` is a walk array with index below C(d,k)
+  have hpos : (∀ x ∈ S, x ∈ succ) → ∃ j, j < Nat.choose succ.length k ∧ k ≤ succ.length ∧
+      pick succ (walk k j) = S := by
+    intro hmem
+    obtain ⟨b, hbl, hbi, hbd, hbp⟩ := exists_positions succ S hs hinc hmem
+    have hbd' : ∀ x ∈ b, x < succ.length := by
+      intro x hx
+      obtain ⟨j, hj, rfl⟩ := (mem_iff_getD _ _).1 hx
+      exact hbd j hj
+    have hrk := rank_lt_choose b succ.length (by omega) hbi hbd'
+    obtain ⟨w1, w2, w3⟩ := walk_spec k hk (QE.C16.kArrayRank b)
+    have hwb : walk k (QE.C16.kArrayRank b) = b := kArrayRank_inj _ _ (by unfold walk; omega) w2 hbi w3
+    refine ⟨QE.C16.kArrayRank b, by rw [hbl, hS] at hrk; exact hrk, ?_, by rw [hwb]; exact hbp⟩
+    have := incr_length_le b hbi succ.length hbd'
+    omega
+  rw [tg0Row_eq _ k hk succ hm]
+  by_cases hd : succ.length ≥ k
+  · rw [if_pos hd]
+    -- facts about the j-th picked subset
+    have hpick : ∀ j, j < Nat.choose succ.length k →
+        (pick succ (walk k j)).length = k ∧ Incr (pick succ (walk k j)) ∧
+        (∀ x ∈ pick succ (walk k j), x ∈ succ) := by
+      intro j hj
+      obtain ⟨w1, w2, _⟩ := walk_spec k hk j
+      have hl := (walk_last_lt_iff k hk succ.length j).2 hj
+      have hall := incr_all_lt (walk k j) w2 succ.length (by unfold walk; omega) hl
+      obtain ⟨p1, p2⟩ := pick_incr succ (walk k j) hs w2 hall
+      exact ⟨by rw [pick_length]; exact w1, p1, p2⟩
+    have hmarks : ∀ x ∈ (List.range (Nat.choose succ.length k)).map
+        (fun j => QE.C16.kArrayRank (pick succ (walk k j))), x < (List.replicate (QE.C16.chooseFast n k) 0).length := by
+      intro x hx
+      obtain ⟨j, hj, rfl⟩ := List.mem_map.1 hx
+      obtain ⟨p1, p2, p3⟩ := hpick j (List.mem_range.1 hj)
+      have := rank_lt_choose (pick succ (walk k j)) n (by omega) p2 (fun x hx => hsn x (p3 x hx))
+      rw [p1] at this
+      simpa [QE.C16.chooseFast_eq_choose] using this
+    rw [(markRow_spec _ _ hmarks).2]
+    have hz : (List.replicate (QE.C16.chooseFast n k) 0).getD (QE.C16.kArrayRank S) 0 = 0 := by
+      rw [List.getD_eq_getElem?_getD]
+      by_cases h : QE.C16.kArrayRank S < QE.C16.chooseFast n k <;> simp [h]
+    rw [hz]
+    by_cases hmem : ∀ x ∈ S, x ∈ succ
+    · rw [if_pos hmem, if_pos]
+      obtain ⟨j, hj, _, hp⟩ := hpos hmem
+      exact List.mem_map.2 ⟨j, List.mem_range.2 hj, by rw [hp]⟩
+    · rw [if_neg hmem, if_neg]
+      intro hin
+      obtain ⟨j, hj, he⟩ := List.mem_map.1 hin
+      obtain ⟨p1, p2, p3⟩ := hpick j (List.mem_range.1 hj)
+      have : pick succ (walk k j) = S := kArrayRank_inj _ _ (by omega) p2 hinc he
+      exact hmem (fun x hx => p3 x (by rw [this]; exact hx))
+  · rw [if_neg hd]
+    have hz : (List.replicate (QE.C16.chooseFast n k) 0).getD (QE.C16.kArrayRank S) 0 = 0 := by
+      rw [List.getD_eq_getElem?_getD]
+      by_cases h : QE.C16.kArrayRank S < QE.C16.chooseFast n k <;> simp [h]
+    rw [hz, if_neg]
+    intro hmem
+    obtain ⟨_, _, hkd, _⟩ := hpos hmem
+    omega
+
+example : tg0Row (α := Nat) 3 2 [1, 2] = [0, 0, 1] ∧ QE.C16.kArrayRank [1, 2] = 2 := by decide
+
+/-- **Tournament game = its definition.** For every `n`, `k ≥ 1`, every orientation stream, every
+    node `i < n` and every `k`-subset `S` (strictly increasing list of nodes `< n`):
+    player 0's payoff at `(i, rank S)` is 1 iff `i → x` is an edge of the tournament for every
+    `x ∈ S`; player 1's payoff at `(rank S, c)` is 1 iff `c ∈ S`. -/
+theorem tournament_game_def (n k : Nat) (hk : 1 ≤ k) (bs : List Bool) (i : Nat) (hi : i < n)
+    (S : List Nat) (hS : S.length = k) (hinc : Incr S) (hlt : ∀ x ∈ S, x < n) (c : Nat) :
+    (((tournamentGame (α := Nat) n k bs).1.getD i []).getD (QE.C16.kArrayRank S) 0
+      = if ∀ x ∈ S, (i, x) ∈ tournEdges n bs then 1 else 0) ∧
+    (((tournamentGame (α := Nat) n k bs).2.getD (QE.C16.kArrayRank S) []).getD c 0
+      = if c ∈ S then 1 else 0) := by
+  unfold tournamentGame
+  simp only
+  constructor
+  · have hrow : ((List.range n).map fun i => tg0Row (α := Nat) (QE.C16.chooseFast n k) k
+        (succOf n (tournEdges n bs) i)).getD i []
+        = tg0Row (α := Nat) (QE.C16.chooseFast n k) k (succOf n (tournEdges n bs) i) := by
+      simp [List.getD_eq_getElem?_getD, hi]
+    obtain ⟨hmem, hsorted⟩ := succOf_spec n (tournEdges n bs) i
+    rw [hrow, tournament_game_p0 n k hk _ (incr_of_pairwise _ hsorted)
+      (fun x hx => ((hmem x).1 hx).1) S hS hinc]
+    have : (∀ x ∈ S, x ∈ succOf n (tournEdges n bs) i) ↔ (∀ x ∈ S, (i, x) ∈ tournEdges n bs) := by
+      constructor
+      · intro h x hx; exact ((hmem x).1 (h x hx)).2
+      · intro h x hx; exact (hmem x).2 ⟨hlt x hx, h x hx⟩
+    simp only [this]
+  · exact (tournament_game_p1 n k hk S hS hinc hlt c).2
+
+/-- **Shapes.** Player 0's array has `n` rows of length `C(n,k)`, player 1's array `C(n,k)` rows of
+    length `n` (for arrays of the walk with entries `< n`, which is the case for the first `C(n,k)`
+    of them by `tournament_game_p1`). -/
+theorem tournament_game_shape (n k : Nat) (bs : List Bool) :
+    (tournamentGame (α := Nat) n k bs).1.length = n ∧
+    (∀ row ∈ (tournamentGame (α := Nat) n k bs).1, row.length = Nat.choose n k) ∧
+    (tournamentGame (α := Nat) n k bs).2.length = Nat.choose n k := by
+  unfold tournamentGame
+  simp only [QE.C16.chooseFast_eq_choose]
+  refine ⟨by simp, ?_, by rw [tg1Rows_eq]; simp⟩
+  intro row hrow
+  obtain ⟨i, _, rfl⟩ := List.mem_map.1 hrow
+  have hgen : ∀ (fuel : Nat) (a row : List Nat),
+      (tg0Loop (α := Nat) (succOf n (tournEdges n bs) i).length (succOf n (tournEdges n bs) i) fuel a row).length
+        = row.length := by
+    intro fuel
+    induction fuel with
+    | zero => intro a row; rfl
+    | succ fuel ih =>
+      intro a row
+      unfold tg0Loop
+      split
+      · simp only; rw [ih]; simp
+      · rfl
+  unfold tg0Row
+  simp only
+  split
+  · rw [hgen]; simp
+  · simp
+
+
+/-- an instance of `tournament_game_def`: n = 3, k = 2, edges 0→1, 0→2, 2→1; node 0 dominates {1,2}
+    (rank 2), player 1's row 1 is the subset {0,2} -/
+example : tournamentGame (α := Nat) 3 2 [true, true, false]
+    = ([[0, 0, 1], [0, 0, 0], [0, 0, 0]], [[1, 1, 0], [1, 0, 1], [0, 1, 1]]) := by decide
+example : Incr [0, 2] ∧ QE.C16.kArrayRank [0, 2] = 1 ∧ ∀ x ∈ [0, 2], x < 3 := by
+  refine ⟨?_, by decide, by decide⟩
+  intro j hj
+  have : j = 0 := by simp at hj; omega
+  subst this; decide
+
+example : tg1Rows (α := Nat) 3 3 (List.range 2) = [[1, 1, 0], [1, 0, 1], [0, 1, 1]] := by decide
+
+/-! ## SGC game -/
+
+section sgc
+set_option linter.unusedSectionVars false
+open Finset
+variable {K : Type} [Field K] [LinearOrder K] [IsStrictOrderedRing K]
+
+/-- on the first `m = 2k-1` columns both players' arrays are the common part (the pair loops write
+    columns `≥ m` only) -/
+theorem sgcEntry_common (k i j : Nat) (hj : j < 2 * k - 1) :
+    (sgcEntry0 k i j : K) = sgcCommon (4 * k - 1) i j ∧ (sgcEntry1 k i j : K) = sgcCommon (4 * k - 1) i j := by
+  have hm : (4 * k - 1 + 1) / 2 - 1 = 2 * k - 1 := by omega
+  unfold sgcEntry0 sgcEntry1
+  simp only [hm]
+  exact ⟨sgcPairs0_lt _ _ _ i j hj, sgcPairs1_lt _ _ _ i j hj⟩
+
+/-- **Row sums against the half-support profile.** For every `k ≥ 1` the sum of row `i` of either
+    player's array over the first `m = 2k-1` columns (`m` times the expected payoff of action `i`
+    against the uniform distribution on the first `m` actions) is `3m/4` for `i < m` (`1/2` when
+    `k = 1`) and `0` for `i ≥ m`. -/
+theorem sgc_rowsum (k : Nat) (hk : 1 ≤ k) (i : Nat) :
+    (∑ j ∈ range (2 * k - 1), (sgcEntry0 k i j : K))
+      = (if i < 2 * k - 1 then (if k = 1 then 1 / 2 else 3 / 4 * ((2 * k - 1 : Nat) : K)) else 0) ∧
+    (∑ j ∈ range (2 * k - 1), (sgcEntry1 k i j : K))
+      = (if i < 2 * k - 1 then (if k = 1 then 1 / 2 else 3 / 4 * ((2 * k - 1 : Nat) : K)) else 0) := by
+  have h0 : ∑ j ∈ range (2 * k - 1), (sgcEntry0 k i j : K) = ∑ j ∈ range (2 * k - 1), (sgcCommon (4 * k - 1) i j : K) :=
+    sum_congr rfl (fun j hj => (sgcEntry_common k i j (mem_range.1 hj)).1)
+  have h1 : ∑ j ∈ range (2 * k - 1), (sgcEntry1 k i j : K) = ∑ j ∈ range (2 * k - 1), (sgcCommon (4 * k - 1) i j : K) :=
+    sum_congr rfl (fun j hj => (sgcEntry_common k i j (mem_range.1 hj)).2)
+  rw [h0, h1]
+  suffices h : ∑ j ∈ range (2 * k - 1), (sgcCommon (4 * k - 1) i j : K)
+      = (if i < 2 * k - 1 then (if k = 1 then 1 / 2 else 3 / 4 * ((2 * k - 1 : Nat) : K)) else 0) from ⟨h, h⟩
+  by_cases hk1 : k = 1
+  · subst hk1
+    simp only [show 2 * 1 - 1 = 1 from rfl, show 4 * 1 - 1 = 3 from rfl, sum_range_one, sgcCommon_one]
+    by_cases hi : i = 0
+    · simp [hi]
+    · have : ¬ i < 1 := by omega
+      simp [hi, this]
+  · have hk2 : 2 ≤ k := by omega
+    rw [sum_congr rfl (fun j hj => sgcCommon_closed k hk2 i j (mem_range.1 hj))]
+    by_cases hi : i < 2 * k - 1
+    · simp only [hi, if_true, hk1, if_false]
+      rw [sum_two_special (2 * k - 1) _ _ 1 (1 / 2) (3 / 4)
+        (by split <;> omega) (by split <;> omega) (by split <;> split <;> omega)]
+      ring
+    · simp [hi]
+
+/-- **The half-support profile is a Nash equilibrium of `sgc_game(k)` for every `k ≥ 1`.**
+    Against the uniform distribution on the opponent's first `m = 2k-1` actions, every action
+    `i < m` of the support earns at least as much as any of the `n = 4k-1` actions `i'` — for both
+    players (each array is indexed by the own action first).  Uniqueness is not proved (it is
+    checked by support enumeration for k ≤ 2 (3) in the harness). -/
+theorem sgc_half_support_nash (k : Nat) (hk : 1 ≤ k) (i i' : Nat) (hi : i < 2 * k - 1) :
+    (∑ j ∈ range (2 * k - 1), (sgcEntry0 k i' j : K)) / ((2 * k - 1 : Nat) : K)
+      ≤ (∑ j ∈ range (2 * k - 1), (sgcEntry0 k i j : K)) / ((2 * k - 1 : Nat) : K) ∧
+    (∑ j ∈ range (2 * k - 1), (sgcEntry1 k i' j : K)) / ((2 * k - 1 : Nat) : K)
+      ≤ (∑ j ∈ range (2 * k - 1), (sgcEntry1 k i j : K)) / ((2 * k - 1 : Nat) : K) := by
+  have hm : (0 : K) < ((2 * k - 1 : Nat) : K) := by exact_mod_cast (by omega : 0 < 2 * k - 1)
+  have key : (if i' < 2 * k - 1 then (if k = 1 then (1 : K) / 2 else 3 / 4 * ((2 * k - 1 : Nat) : K)) else 0)
+      ≤ (if k = 1 then (1 : K) / 2 else 3 / 4 * ((2 * k - 1 : Nat) : K)) := by
+    have hpos : (0 : K) ≤ (if k = 1 then (1 : K) / 2 else 3 / 4 * ((2 * k - 1 : Nat) : K)) := by
+      split
+      · norm_num
+      · positivity
+    split
+    · exact le_refl _
+    · exact hpos
+  rw [(sgc_rowsum k hk i).1, (sgc_rowsum k hk i).2, (sgc_rowsum k hk i').1, (sgc_rowsum k hk i').2, if_pos hi]
+  exact ⟨div_le_div_of_nonneg_right key (le_of_lt hm), div_le_div_of_nonneg_right key (le_of_lt hm)⟩
+
+/-- the payoffs are normalised: on the first `m` columns every entry lies in `[0, 1]` -/
+example : (sgcEntry0 (α := Rat) 2 0 2, sgcEntry0 (α := Rat) 2 0 1, sgcEntry0 (α := Rat) 2 3 3, sgcEntry1 (α := Rat) 2 3 4)
+    = (1, 1 / 2, 3 / 4, 3 / 4) := by decide +kernel
+
+/-- **SGC game = its definition** (`k ≥ 2`, `m = 2k-1`, `n = 4k-1`).  Every entry of both arrays:
+    in the first `m` rows the `m × m` block is the cyclic pattern (1 on the cyclic sub-diagonal
+    `j = i-1 mod m`, ½ on the cyclic super-diagonal `j = i+1 mod m`, ¾ elsewhere) followed by ½ in
+    the columns `≥ m`; the last `2k` rows are 0 except ¾ on the diagonal (player 0), respectively ¾
+    on the swapped pairs `(m+2h, m+2h+1)`, `(m+2h+1, m+2h)` (player 1). -/
+theorem sgc_def (k : Nat) (hk : 2 ≤ k) (i j : Nat) (hi : i < 4 * k - 1) (hj : j < 4 * k - 1) :
+    (sgcEntry0 k i j : K) =
+      (if i < 2 * k - 1 then
+        (if j < 2 * k - 1 then
+          (if j = (if i = 0 then 2 * k - 2 else i - 1) then 1
+           else if j = (if i = 2 * k - 2 then 0 else i + 1) then 1 / 2 else 3 / 4)
+         else 1 / 2)
+       else (if i = j then 3 / 4 else 0)) ∧
+    (sgcEntry1 k i j : K) =
+      (if i < 2 * k - 1 then
+        (if j < 2 * k - 1 then
+          (if j = (if i = 0 then 2 * k - 2 else i - 1) then 1
+           else if j = (if i = 2 * k - 2 then 0 else i + 1) then 1 / 2 else 3 / 4)
+         else 1 / 2)
+       else (if 2 * k - 1 ≤ j ∧ i ≠ j ∧ (i - (2 * k - 1)) / 2 = (j - (2 * k - 1)) / 2 then 3 / 4 else 0)) :=
+  sgc_def' k hk i j hi hj
+
+/-- **`sgc_game(k)` has no pure Nash equilibrium for `k ≥ 2`** (so its equilibrium — the half-support
+    profile of `sgc_half_support_nash` — is properly mixed).  `a` is player 0's action, `b` player 1's;
+    each array is indexed by the own action first. -/
+theorem sgc_no_pure_nash (k : Nat) (hk : 2 ≤ k) (a b : Nat) (ha : a < 4 * k - 1) (hb : b < 4 * k - 1) :
+    ¬ ((∀ a', a' < 4 * k - 1 → (sgcEntry0 k a' b : K) ≤ sgcEntry0 k a b) ∧
+       (∀ b', b' < 4 * k - 1 → (sgcEntry1 k b' a : K) ≤ sgcEntry1 k b a)) :=
+  sgc_no_pure_nash' k hk a b ha hb
+
+/-- every payoff of `sgc_game(k)` is one of 0, ½, ¾, 1 — in particular inside `[0, 1]` -/
+theorem sgc_entries_normalised (k a b : Nat) :
+    (0 ≤ (sgcEntry0 k a b : K) ∧ (sgcEntry0 k a b : K) ≤ 1) ∧
+    (0 ≤ (sgcEntry1 k a b : K) ∧ (sgcEntry1 k a b : K) ≤ 1) := by
+  obtain ⟨h0, h1⟩ := sgcEntry_val (K := K) k a b
+  constructor
+  · rcases h0 with h | h | h | h <;> rw [h] <;> constructor <;> norm_num
+  · rcases h1 with h | h | h | h <;> rw [h] <;> constructor <;> norm_num
+
+/-- … and for `k ≥ 2` the bounds 1 and 0 are attained (at `(0, m-1)` and `(m, 0)`) -/
+theorem sgc_bounds_attained (k : Nat) (hk : 2 ≤ k) :
+    (sgcEntry0 k 0 (2 * k - 2) : K) = 1 ∧ (sgcEntry0 k (2 * k - 1) 0 : K) = 0 := by
+  constructor
+  · rw [(sgcEntry_common k 0 (2 * k - 2) (by omega)).1, sgcCommon_closed k hk 0 _ (by omega)]
+    simp; omega
+  · rw [(sgcEntry_common k (2 * k - 1) 0 (by omega)).1, sgcCommon_closed k hk _ 0 (by omega)]
+    simp
+
+/-- `k = 1` (`n = 3`, `m = 1`): the write `A[m-1, m-2] = 1` wraps to column `n-1` (NumPy negative
+    index) and `A[m-1, 0] = ½` overwrites the 1 written first; the arrays are -/
+example : tabulate 3 3 (sgcEntry0 (α := Rat) 1) = [[1 / 2, 1 / 2, 1], [0, 3 / 4, 0], [0, 0, 3 / 4]] ∧
+    tabulate 3 3 (sgcEntry1 (α := Rat) 1) = [[1 / 2, 1 / 2, 1], [0, 0, 3 / 4], [0, 3 / 4, 0]] := by
+  decide +kernel
+
+end sgc
+
+/-! ## check_random_state -/
+
+/-- the seed normalisation is a three-way case split: the global singleton for `None`, a fresh
+    `RandomState` for an integer, the *same* object for a `RandomState` or `Generator` (so the
+    caller's generator is the one that gets advanced), `ValueError` otherwise -/
+theorem checkRandomState_spec (s : Seed) :
+    (checkRandomState s = .same ↔ (s = .randomState ∨ s = .generator)) ∧
+    (checkRandomState s = .fresh ↔ s = .int) ∧
+    (checkRandomState s = .global ↔ s = .none) ∧
+    (checkRandomState s = .valueError ↔ s = .other) := by
+  cases s <;> simp [checkRandomState]
 
 end QE.C18
